@@ -30,6 +30,10 @@
 //       g:<name> <T>:<repr>   every entry of A after A.merge(D)
 //       l:<kwid> found | missed   A[name] for every keyword of either list and for one name nobody set
 //
+// Direct probe of a predicate object of predicates.hpp (wave 2), one per line:
+//   V <pred> <T> <nargs> { <arg> }* <value>     pred 0 Positivity 1 NonNegativity 2 InRange 3 InClosedRange,
+//     T = I (IndexType, decimal) | S (ScalarType, hex float);  reports  r=[0|1] : P<T>(args)(value)
+//
 // Every request runs in a forked child (exceptions cannot leave OpenMP regions, and a mutated
 // library may crash or hang): the first kernel()/distance() call ends the child with outcome
 // stop:kernel / stop:distance — "validation accepted, evaluation starts".  Output, one line per request:
@@ -342,6 +346,40 @@ static std::string name_of_kwid(int kwid)
     return nm;
 }
 
+template <class T> static T read_num(std::istringstream& in)
+{
+    std::string w;
+    if (!(in >> w)) emit_and_exit("other:bad-request-line");
+    if constexpr (std::is_same<T, IndexType>::value) return (IndexType)atoi(w.c_str());
+    else return (ScalarType)strtod(w.c_str(), NULL);
+}
+
+template <class T> static void predicate_probe(std::istringstream& in, int pred, int nargs)
+{
+    using namespace tapkee::tapkee_internal;
+    T a[2] = {T(), T()};
+    for (int i = 0; i < nargs && i < 2; i++) a[i] = read_num<T>(in);
+    T v = read_num<T>(in);
+    bool r = false;
+    if (pred == 0 && nargs == 0) r = Positivity<T>()(v);
+    else if (pred == 1 && nargs == 0) r = NonNegativity<T>()(v);
+    else if (pred == 2 && nargs == 2) r = InRange<T>(a[0], a[1])(v);
+    else if (pred == 3 && nargs == 2) r = InClosedRange<T>(a[0], a[1])(v);
+    else emit_and_exit("other:bad-request-line");
+    g_echo = std::string("r=[") + (r ? "1" : "0") + "];";
+    emit_and_exit("pred");
+}
+
+static void predicate_main(std::istringstream& in)
+{
+    int pred, nargs;
+    std::string ty;
+    if (!(in >> pred >> ty >> nargs)) emit_and_exit("other:bad-request-line");
+    alarm(8);
+    if (ty == "I") predicate_probe<IndexType>(in, pred, nargs);
+    else predicate_probe<ScalarType>(in, pred, nargs);
+}
+
 static void probe_main(std::istringstream& in)
 {
     std::vector<Parameter> la, ld;
@@ -438,6 +476,11 @@ static void child_main(const std::string& line)
         in >> tag;
         probe_main(in);
     }
+    if (!line.empty() && line[0] == 'V')
+    {
+        in >> tag;
+        predicate_main(in);
+    }
     if (!(in >> tag >> N >> mask >> stopf >> nkw) || tag != "R" || N < 0 || N > 4096 || nkw < 0)
         emit_and_exit("other:bad-request-line");
     g_stopf = stopf;
@@ -485,7 +528,7 @@ int main()
     signal(SIGPIPE, SIG_IGN);
     while (std::getline(std::cin, line))
     {
-        if (line.empty() || (line[0] != 'R' && line[0] != 'P')) continue;
+        if (line.empty() || (line[0] != 'R' && line[0] != 'P' && line[0] != 'V')) continue;
         int fds[2];
         if (pipe(fds) != 0) { perror("pipe"); return 2; }
         fflush(stdout);
